@@ -943,9 +943,27 @@ class StateEngine(object):
         """
         has_terminated = any("terminated" in r for r in all_branch_results.values())
 
+        def is_terminated(results):
+            """
+            A Map or Parallel state has been terminated if it has itself been
+            marked as terminated or if any Map or Parallel state that encloses
+            it has. Termination propagates inwards only: the failure of a
+            nested Map or Parallel state, which might be retried or caught,
+            must not disturb the sibling Branches of the states enclosing it.
+            """
+            while results:
+                if "terminated" in results:
+                    return True
+                results = all_branch_results.get(results.get("parent"))
+            return False
+
         results_pending = False
         for results in all_branch_results.values():
-            if has_terminated:
+            if has_terminated and not is_terminated(results):
+                # Not affected by the termination, so just note if still active.
+                if any(r == None or r == "__CAUGHT__" for r in results["results"]):
+                    results_pending = True
+            elif has_terminated:
                 result = results["results"]
                 event_ids = results["ids"]
 
@@ -982,6 +1000,8 @@ class StateEngine(object):
                             results_pending = True
 
         for results in all_branch_results.values():
+            if has_terminated and not is_terminated(results):
+                continue
             event_ids = results["ids"]
             #print("Acknowledging event_ids:")
             #print(event_ids)
@@ -1075,6 +1095,8 @@ class StateEngine(object):
                     "ids": [None]*length,  # Unacknowledged messages
                     "state": [None]*length,
                 }
+                if len(branch_info_stack) > 1:  # ID of the enclosing Map/Parallel
+                    all_branch_results[current_id]["parent"] = branch_info_stack[-2]["ID"]
 
             # Get the branch results for current execution and current state
             branch_results = all_branch_results[current_id]
@@ -3171,6 +3193,8 @@ class StateEngine(object):
                     "ids": [None]*length,  # Unacknowledged messages
                     "state": [None]*length,
                 }
+                if len(context_state["Branch"]) > 1:  # ID of the enclosing Map/Parallel
+                    all_branch_results[current_id]["parent"] = context_state["Branch"][-2]["ID"]
 
             """
             Record the raw result for this branch, which will eventually be used
@@ -3258,6 +3282,21 @@ class StateEngine(object):
             data = branch_info["Input"]  # Get saved raw input
 
             if error:
+                """
+                If this Map or Parallel state had already been terminated and
+                the error is Task.Terminated it has been caused by cancelling
+                one of its remaining Branches/Iterations. The failure that
+                caused the termination has already been handled (it may have
+                been retried or caught), so just tidy up and don't fail the
+                Map or Parallel state a second time, which for a nested Map or
+                Parallel state would go on to terminate the states enclosing it.
+                """
+                if error == "Task.Terminated" and "terminated" in branch_results:
+                    if previous_state_type == "Task" or previous_state_type == "Wait":
+                        event_ids[index] = None
+                    self.check_pending_results(execution_arn)
+                    return
+
                 # Set range to terminate subsequent branches/iterations
                 branch_results["terminated"] = str(start) + ":" + str(end)
 
